@@ -61,6 +61,27 @@ class FixMid(FixExc):
         super().__init__(a + b)
 
 
+class FixEqHash(Exception):
+    """Value equality and hashing by args (two distinct instances may be equal)."""
+
+    def __eq__(self, other: object) -> bool:
+        return type(other) is type(self) and other.args == self.args  # type: ignore[attr-defined]
+
+    def __hash__(self) -> int:
+        return hash(self.args)
+
+
+import dataclasses as _dc
+
+
+@_dc.dataclass
+class FixDcErr(Exception):
+    """Dataclass exception: __eq__ by value, unhashable."""
+
+    code: int = 0
+    reason: str = "r"
+
+
 class Outer:
     class InnerExc(Exception):
         pass
@@ -87,7 +108,7 @@ def install_fixture() -> None:
     sub.Exc2 = FixExc  # type: ignore[attr-defined]
     m.sub = sub  # type: ignore[attr-defined]
     sys.modules[FIX] = m
-    for cls in (FixExc, FixBaseOnly, FixCustomInit, FixKwOnly, FixMid, Outer, _TrapCls):
+    for cls in (FixExc, FixBaseOnly, FixCustomInit, FixKwOnly, FixMid, Outer, _TrapCls, FixEqHash, FixDcErr):
         cls.__module__ = FIX
         setattr(m, cls.__name__, cls)
     FixExc.__qualname__ = "FixExc"
@@ -216,6 +237,11 @@ def make_args(kind: str, salt: int) -> tuple:
         return (_Unreprable(), "tail")
     if kind == "mixed":
         return ("ok", {3}, lambda: 1, _Unreprable(), 7)
+    if kind == "const":
+        return ("same for every node", 1)
+    if kind == "loadfail":
+        # pickles (by reduce) but cannot be loaded back: its class cannot be rebuilt from its args
+        return ("m", FixCustomInit(404, "not found"))
     raise ValueError(kind)
 
 
@@ -237,6 +263,10 @@ def make_class(kind: str) -> Any:
         return FixKwOnly
     if kind == "mid":
         return FixMid
+    if kind == "eqhash":
+        return FixEqHash
+    if kind == "dcerr":
+        return FixDcErr
     if kind == "local":
         class LocalErr(Exception):
             pass
@@ -246,7 +276,7 @@ def make_class(kind: str) -> Any:
     raise ValueError(kind)
 
 
-IMPORTABLE = {"builtin", "builtin2", "module", "nested", "baseonly"}
+IMPORTABLE = {"builtin", "builtin2", "module", "nested", "baseonly", "eqhash", "dcerr"}
 
 
 def make_exc(kind: str, akind: str, salt: int) -> BaseException:
@@ -257,6 +287,8 @@ def make_exc(kind: str, akind: str, salt: int) -> BaseException:
         e = cls(detail="d%d" % salt)
     elif kind == "mid":
         e = cls(salt, 1)
+    elif kind == "dcerr":
+        e = cls(7, "r") if akind == "const" else cls(salt, "r%d" % salt)
     else:
         e = cls(*make_args(akind, salt))
     return e
